@@ -90,7 +90,7 @@ func (a Bool) M__ne__(other Object) (Object, error) {
 	if b, ok := convertToBool(other); ok {
 		return NewBool(a != b), nil
 	}
-	return True, nil
+	return NotImplemented, nil
 }
 
 func notEq(eq Object, err error) (Object, error) {
